@@ -1,0 +1,18 @@
+//go:build verif
+
+package kubeeventsmanager
+
+// Contracts for the verification framework in /verif (comment-only file, build tag `verif`).
+
+//@ pure utils/checksum.CalculateChecksum kube_events_manager.resourceId
+
+// C09 (type-state link): what applyFilter stores as FilterResult is what ObjectAndFilterResult.Map
+// renders: for a jqFilter a Go map (the result of the built-in jq), for a filter function its value.
+// C08: the checksum is computed over the JSON rendering of the projection.
+//@ func applyFilter
+//@   prop C09, C08
+//@   modifies nothing
+//@   ensures [fields]      result1 == nil ==> result0 != nil && result0.Metadata.JqFilter == jqFilter && result0.Object == obj && result0.Metadata.ResourceId == resourceId(obj) && !result0.Metadata.RemoveObject
+//@   ensures [stored-type] result1 == nil && filterFn == nil && jqFilter != "" ==> dyntype(result0.FilterResult, map[string]interface{})
+//@   ensures [no-filter]   result1 == nil && filterFn == nil && jqFilter == "" ==> result0.FilterResult == nil
+//@   ensures [filter-fn]   result1 == nil && filterFn != nil ==> result0.FilterResult == filterFn(obj)
